@@ -45,6 +45,7 @@ class MapFiller(Visitor):
         macros = [self.visit(macro) for macro in circuit.macros.values()]
         sexpr = [
             "circuit",
+            *circuit.usepulses,
             *circuit.constants.values(),
             *circuit.registers.values(),
             *macros,
